@@ -15,6 +15,9 @@ Universe ==
      <<"360deg", "turn1">>, <<"1turn", "turn1">>, <<"1000ms", "s1">>, <<"1s", "s1">>,
      <<"a", "sa">>, <<"\"a\"", "sa">>, <<"'a'", "sa">>, <<"b", "sb">>, <<"\"\"", "sempty">>,
      <<"red", "cred">>, <<"#f00", "cred">>, <<"#ff0000", "cred">>, <<"rgb(255, 0, 0)", "cred">>, <<"rgba(255, 0, 0, 0.5)", "credhalf">>, <<"blue", "cblue">>,
+     <<"hsl(0, 100%, 50%)", "cred">>, <<"#666666", "cgray40">>, <<"hsl(0, 0%, 40%)", "cgray40">>, <<"hsl(120, 0%, 40%)", "cgray40">>,
+     <<"darken(#999999, 20%)", "cgray40">>,
+     <<"(k 1)", "lk1-space">>, <<"(k 1.0)", "lk1-space">>, <<"(k, 1)", "lk1-comma">>, <<"[k 1]", "lk1-space-br">>,
      <<"(a b)", "lab-space">>, <<"(a, b)", "lab-comma">>, <<"[a b]", "lab-space-br">>, <<"(a,)", "la-comma">>, <<"(1in 2)", "l96-2">>, <<"(96px 2)", "l96-2">>,
      <<"(k: 1)", "mk1">>, <<"(k: 1.0)", "mk1">>, <<"(k: 2)", "mk2">>, <<"(k: 1, j: 2)", "mkj">>, <<"(j: 2, k: 1)", "mkj">>,
      <<"null", "null">>, <<"false", "false">>, <<"true", "true">>, <<"0", "n0">>, <<"-0", "n0">>, <<"0px", "px0">>, <<"0cm", "px0">> >>
